@@ -475,13 +475,19 @@ def compare_source(ck, scripts, which, limit=400):
         b = [l for l in src_out.get(name, []) if l.startswith("cmp ")]
         for x, y in zip(a, b):
             methods += 1
-            m = re.match(r"cmp (-?\d+) n=(\d+) ms=(\S*) base=(\S*)", x)
+            m = re.match(r"cmp (-?\d+) n=(\d+) ms=(\S*) base=(\S*) best=(\S*)", x)
             if m:
                 pairs += int(m.group(2)) ** 2
             if x != y and first is None:
-                my = re.match(r"cmp (-?\d+) n=(\d+) ms=(\S*) base=(\S*)", y)
+                my = re.match(r"cmp (-?\d+) n=(\d+) ms=(\S*) base=(\S*) best=(\S*)", y)
                 col = 3 if which == "ms" else 4
-                if m and my and m.group(col) != my.group(col):
+                if m and my and which == "ms" and m.group(col) == my.group(col) and m.group(5) != my.group(5):
+                    ka, kb = m.group(5).split("|"), my.group(5).split("|")
+                    pos = next(i for i, (p_, q_) in enumerate(zip(ka, kb)) if p_ != q_)
+                    first = (name, lines, {"method": int(m.group(1)), "function": "best", "candidate_set(prefixes of the method's definitions, then suffixes)": pos,
+                                           "compiled_function_returns(positions)": ka[pos], "translated_source_returns": kb[pos],
+                                           "implementation_line": x, "translated_line": y})
+                elif m and my and m.group(col) != my.group(col):
                     n_ = int(m.group(2))
                     pos = next(i for i, (p_, q_) in enumerate(zip(m.group(col), my.group(col))) if p_ != q_)
                     first = (name, lines, {"method": int(m.group(1)), "definitions(a, b) by position among the method's definitions": [pos // n_, pos % n_],
@@ -491,7 +497,7 @@ def compare_source(ck, scripts, which, limit=400):
             first = (name, lines, {"implementation_lines": a[:3], "translated_lines": b[:3]})
     if first and not any(f_ for _, f_ in ck.violations):
         name, lines, detail = first
-        fn = "is_more_specific" if which == "ms" else "is_base"
+        fn = detail.get("function") or ("is_more_specific" if which == "ms" else "is_base")
         detail.update({"property": ck.prop, "script": lines, "seed": ck.seed,
                        "kind": "the body of compiler<Policy>::%s as translated from the header on this run (Sel.exec) and the compiled function "
                                "disagree on a pair of definitions" % fn})
